@@ -243,6 +243,21 @@ def late_features(spec, feat):
                 if isinstance(side, dict) and "times" in side and len(side["times"]) == len(vt) >= 3 and \
                         F(side["times"][0]) == vt[0] and F(side["times"][-1]) == vt[-1] and r2.random() < 0.6:
                     side["times"] = [str(vt[0])] + [str(vt[i] + (vt[i + 1] - vt[i]) * F(r2.randint(1, 3), 4)) for i in range(1, len(vt) - 1)] + [str(vt[-1])]
+    comps = [v for v in spec.get("path_variables", []) if "#" in v]
+    if feat.get("bounds") and feat.get("pvars") and comps and r2.random() < 0.5:
+        # the vector path variable bounded by one Timeseries with a column per component
+        tt = list(spec["times"]) if r2.random() < 0.6 else [str(F(t) - F(1, 4)) for t in spec["times"][:1]] + list(spec["times"][1:])
+        b = spec.setdefault("bounds", {})
+        for c in comps:
+            b.setdefault(c, [None, None])
+            b[c] = [b[c][0] if not isinstance(b[c][0], dict) else None, b[c][1] if not isinstance(b[c][1], dict) else None]
+        for side, sign in ((0, -1), (1, 1)):
+            if r2.random() < 0.75:
+                for c in comps:
+                    b[c][side] = {"times": tt, "values": [str(sign * abs(dy(r2, 1, 9)) + dy(r2, 0, 2)) for _ in tt]}
+        spec["vector_series"] = [comps[0].split("#")[0]]
+        for c in comps:
+            spec.get("bounds2", {}).pop(c, None)
     pvs = spec.get("path_variables", [])
     if feat.get("pvars") and "ps" in pvs and len(pvs) > 1 and r2.random() < 0.5:
         # the vector path variable in front of the scalar one
